@@ -84,6 +84,8 @@ impl BuildJob<'_> {
     ) -> Result<Pin<Box<dyn Future<Output = i32> + 'a>>, RedoError> {
         let before_t = try_stat(self.t.as_path()).map_err(RedoError::opaque_error)?;
         debug_assert!(self.lock.is_owned());
+        #[cfg(feature = "verif-hooks")]
+        self.sf.verif_emit_decide();
         let (is_target, dirty) = (self.should_build_func)(&mut ptx, &self.t)?;
         vemit!("Verdict", "t": self.sf.name().as_str(), "fid": self.sf.id(), "verdict": match &dirty { Dirtiness::Clean => "clean", Dirtiness::Dirty => "dirty", Dirtiness::NeedTargets(_) => "need" }, "need": match &dirty { Dirtiness::NeedTargets(v) => v.iter().map(|f| f.name().as_str().to_string()).collect::<Vec<String>>(), _ => Vec::new() });
         match dirty {
